@@ -3132,7 +3132,13 @@ class TypedDictType(ProperType):
     def write(self, data: WriteBuffer) -> None:
         write_tag(data, TYPED_DICT_TYPE)
         self.fallback.write(data)
-        write_type_map(data, self.items)
+        # Keep the declaration order of the keys: it is observable (reveal_type, error messages)
+        # and the JSON format keeps it too.  The byte layout is the one read_type_map() expects.
+        write_tag(data, DICT_STR_GEN)
+        write_int_bare(data, len(self.items))
+        for key, item_type in self.items.items():
+            write_str_bare(data, key)
+            item_type.write(data)
         write_str_list(data, sorted(self.required_keys))
         write_str_list(data, sorted(self.readonly_keys))
         write_bool(data, self.is_closed)
